@@ -19,7 +19,7 @@
 //     A1  lifetime passed and the request has no usable max-stale                      => a STALE_* verdict (>= 200)
 //     A1b lifetime passed, request max-stale=N (honoured) and now - E >= N              => a STALE_* verdict
 //     A2  request (Cache-Control honoured) max-age=N and age > N, or max-age=0          => a STALE_* verdict
-//         [not claimed when the stored reply is "immutable": KNOWN-FINDING candidate, see below]
+//         [stored reply "immutable": KNOWN FINDING, claimed only by c12_known_immutable_max_age]
 //     A3  request reload (nocacheHack: Cache-Control no-cache / Pragma no-cache when an ignore-reload/reload-into-ims rule exists)
 //         with the default rule                                                          => a STALE_* verdict
 //     A4  entry marked ENTRY_REVALIDATE_ALWAYS (reply no-cache/private), or ENTRY_REVALIDATE_STALE (must-revalidate,
@@ -34,7 +34,8 @@
 //   K3: lifetime L = s-maxage | max-age | Expires - Date (Date = receipt time when absent/invalid; an unparsable Expires = already
 //       expired), resident = now - receipt time (<= current_age of RFC 9111 4.2.3):
 //     C1  explicit L and resident >= L  => a STALE_* verdict for a plain later request
-//   Two input classes violate C1 on the unchanged tree (KNOWN-FINDING candidates F1, F2, described and excluded in chain()).
+//   Two input classes violate C1 and one violates A2 on the unchanged tree: KNOWN FINDINGS (known_findings.json), each examined by its
+//   own entry c12_known_* and excluded from all other entries (see the flags before verdict() and the comments in chain()).
 // Quick tier: the clock (K1) / the receipt time (K3) stands at 10^9 and all other times are symbolic; thorough: symbolic too.
 #include "C11_env.h"
 #include "time/gadgets.h"
@@ -116,7 +117,13 @@ static int verdictOf(World &w)
 }
 
 // ================================================================== K1
-extern "C" void c12_verdict(void)
+// KNOWN FINDINGS (known_findings.json). Each class is examined only by its own entry c12_known_*, which sets the flag, is
+// restricted by vf_assume to exactly that input class and keeps the strict assertion; every other entry excludes the class.
+static bool onlyImmutableMaxAge = false; // C12-immutable-ignores-request-max-age: set by c12_known_immutable_max_age only
+static bool onlyBadExpiresOldDate = false; // C12-unparsable-expires-old-date:     set by c12_known_unparsable_expires only
+static bool onlyRebasedBeforeEpoch = false; // C12-expires-before-epoch-rebase:    set by c12_known_expires_rebase only
+
+static void verdict()
 {
     defaults();
     World w;
@@ -133,10 +140,14 @@ extern "C" void c12_verdict(void)
     w.entry->timestamp = (time_t)ts;
     w.entry->expires = (time_t)E;
     w.entry->lastModified_ = (time_t)lm;
-    const uint16_t eflags = vf_nondet_u16("entry_flags");
+    const uint16_t eflags = onlyImmutableMaxAge ? 0 : vf_nondet_u16("entry_flags");
     w.entry->flags = eflags;
     const Req r = symbolicRequest(w);
-    HttpHdrCc *repCc = vf_concretize(vf_bool("rep_has_cc")) ? symbolicCc("rep_cc", false) : nullptr;
+    HttpHdrCc *repCc = (onlyImmutableMaxAge || vf_concretize(vf_bool("rep_has_cc"))) ? symbolicCc("rep_cc", false) : nullptr;
+    if (onlyImmutableMaxAge) { // the known entry is kept tiny: request "Cache-Control: max-age=N" only, stored reply "immutable" only, unmarked entry
+        vf_assume(r.cc && r.cc->mask == (1 << CC_MAX_AGE) && !r.ignoreCc && !r.reload && !r.ims);
+        vf_assume(repCc->mask == (1 << CC_IMMUTABLE));
+    }
 #ifndef VF_THOROUGH
     // quick: of the stored reply's directives only immutable (the one that changes a verdict); stale-if-error only sets a request flag
     if (repCc) vf_assume(!ccHas(repCc, CC_STALE_IF_ERROR));
@@ -159,10 +170,14 @@ extern "C" void c12_verdict(void)
     vf_assert(!a1 | stale, "explicit freshness lifetime passed and no request max-stale: the verdict is STALE");
     const bool a1b = passed & maxStaleGiven & (maxStale != HttpHdrCc::MAX_STALE_ANY) & (now - E >= maxStale);
     vf_assert(!a1b | stale, "stale by more than the request's max-stale: the verdict is STALE");
-    // KNOWN-FINDING candidate: refreshCheck() ignores the request's max-age (also max-age=0) when the stored reply carries
-    // Cache-Control: immutable (RFC 8246), so "Cache-Control: max-age=0" does not reach the origin while such a reply is
-    // fresh. Excluded here: stored reply with immutable.
-    const bool a2 = ccOn & ccHas(r.cc, CC_MAX_AGE) & ((maxAge == 0) | (age > maxAge)) & !ccHas(repCc, CC_IMMUTABLE);
+    // KNOWN FINDING C12-immutable-ignores-request-max-age: refreshCheck() ignores the request's max-age (also max-age=0) when the
+    // stored reply carries Cache-Control: immutable (RFC 8246), so "Cache-Control: max-age=0" does not reach the origin while such
+    // a reply is fresh. Class: honoured request max-age that is 0 or smaller than the age, stored reply with immutable. The claim A2
+    // is made for that class only by c12_known_immutable_max_age (restricted to it); here the class is excluded from A2.
+    const bool a2any = ccOn & ccHas(r.cc, CC_MAX_AGE) & ((maxAge == 0) | (age > maxAge));
+    const bool immutableClass = a2any & ccHas(repCc, CC_IMMUTABLE);
+    if (onlyImmutableMaxAge) vf_assume(immutableClass);
+    const bool a2 = a2any & (onlyImmutableMaxAge | !immutableClass);
     vf_assert(!a2 | stale, "request max-age=0 or max-age smaller than the age: the verdict is STALE");
     const bool a3 = ccOn & r.reload;
     vf_assert(!a3 | stale, "client reload (no-cache) with the default rule: the verdict is STALE");
@@ -183,6 +198,8 @@ extern "C" void c12_verdict(void)
     else vf_reach("other");
     WITNESS_POINT();
 }
+extern "C" void c12_verdict(void) { verdict(); }
+extern "C" void c12_known_immutable_max_age(void) { onlyImmutableMaxAge = true; verdict(); }
 
 // ================================================================== K2 / K3
 struct Hdr {
@@ -234,26 +251,24 @@ extern "C" void c12_expiry(void)
     WITNESS_POINT();
 }
 
-#ifndef C12_SHOW
-#define C12_SHOW 0   // bit 0 / bit 1 re-admit KNOWN-FINDING candidate class F1 / F2 below (to show the counterexamples again)
-#endif
-
 // plain later request (no Cache-Control, no reload): K1 covers what requests can change.
-// withLastModified: the reply also carries Last-Modified (any time) and no Cache-Control, Date present, Expires present --
-// the cases in which a lost explicit expiry would silently turn into LM-factor heuristic freshness.
-static void chain(const bool withLastModified)
+// withLastModified: the reply also carries Last-Modified (any time).
+// dateAndExpiresOnly: Date present, Expires present (valid or unparsable), no Cache-Control.
+static void chain(const bool withLastModified, const bool dateAndExpiresOnly)
 {
     defaults();
     World w;
     Config.maxStale = 604800;
     // receipt (quick tier: at 10^9 = 2001-09-09; every other time stays symbolic, so every Date/Expires skew relative to it is covered)
-    const int64_t t0 = T(1000000000, vf_range(0, T31, "received"));
+    // (c12_known_expires_rebase is kept tiny: receipt at 10^9 and Last-Modified at 9*10^8 in both tiers, so that the LM-factor rule's
+    // floating-point product is concrete)
+    const int64_t t0 = onlyRebasedBeforeEpoch ? 1000000000 : T(1000000000, vf_range(0, T31, "received"));
     squid_curtime = (time_t)t0;
     if (withLastModified) {
-        markL = (time_t)vf_range(0, T31, "last_modified");
+        markL = onlyRebasedBeforeEpoch ? 900000000 : (time_t)vf_range(0, T31, "last_modified");
         field(w.rep->header, Http::HdrType::LAST_MODIFIED, "@L");
     }
-    const Hdr h = symbolicReply(w, t0, withLastModified);
+    const Hdr h = symbolicReply(w, t0, dateAndExpiresOnly);
     // reference freshness lifetime (RFC 9111 4.2.1), Date = receipt time when there is no valid Date (RFC 9110 6.6.1)
     const int64_t dateRef = h.hasDate ? h.D : t0;
     bool explicitL = true, byExpires = false; int64_t L = 0;
@@ -261,20 +276,23 @@ static void chain(const bool withLastModified)
     else if (ccHas(h.cc, CC_MAX_AGE)) L = h.cc->max_age;
     else if (h.hasExpires) { L = h.expiresValid ? h.X - dateRef : 0; byExpires = true; } // unparsable Expires = already expired (RFC 9111 5.3)
     else explicitL = false;
-    // KNOWN-FINDING candidate F1: the lifetime comes from an unparsable Expires ("0", "-1", ...) and the Date field is more than 24 h
-    // older than Squid's clock. hdrExpirationTime() turns the bad Expires into the receipt time t0, StoreEntry::timestampsSet()
-    // replaces the old Date by t0 (served_date) but still adds (expires - Date): entry->expires = t0 + (t0 - Date), so the
-    // already-expired reply is FRESH_EXPIRES for as long as the Date was old (replay: received=524288 date=1024 expires_field=2 now=852334).
-    if (!(C12_SHOW & 1) && byExpires && !h.expiresValid && h.hasDate) vf_assume(!(h.D < t0 - 86400));
-    // KNOWN-FINDING candidate F2: the lifetime comes from Expires, the Date field is ahead of Squid's clock (served_date = t0) and
-    // Expires <= Date - t0 - 1 (e.g. "Expires: Thu, 01 Jan 1970 00:00:01 GMT" from an origin whose clock is 2 s ahead; for an
-    // unparsable Expires, taken as t0: Date >= 2*t0 + 1): the rebased entry->expires = t0 + Expires - Date is <= -1, which
-    // refreshStaleness() reads as "no explicit expiry", and with a Last-Modified field the reply is FRESH_LMFACTOR_RULE although it
-    // had expired before it was sent (replays: received=1073741824 last_modified=1006632960 date=1879048192 expires=805273600
-    // now=1073741824; received=107470848 last_modified=40361984 date=782237696 expires_field=2 now=107470848).
-    // Without Last-Modified the verdict is STALE_DEFAULT.
-    if (!(C12_SHOW & 2) && withLastModified && byExpires && h.hasDate)
-        vf_assume(!(h.D > t0 && t0 + (h.expiresValid ? h.X : t0) - h.D <= -1));
+    // KNOWN FINDING C12-unparsable-expires-old-date: the lifetime comes from an unparsable Expires ("0", "-1", ...) and the Date field
+    // is more than 24 h older than Squid's clock. hdrExpirationTime() turns the bad Expires into the receipt time t0,
+    // StoreEntry::timestampsSet() replaces the old Date by t0 (served_date) but still adds (expires - Date): entry->expires =
+    // t0 + (t0 - Date), so the already-expired reply is FRESH_EXPIRES for as long as the Date was old
+    // (e.g. received=10^9 date=999900000 Expires unparsable now=1000050000 -> FRESH_EXPIRES).
+    // Examined by c12_known_unparsable_expires only; every other entry excludes exactly this class.
+    const bool badExpiresOldDate = byExpires && !h.expiresValid && h.hasDate && h.D < t0 - 86400;
+    vf_assume(badExpiresOldDate == onlyBadExpiresOldDate);
+    // KNOWN FINDING C12-expires-before-epoch-rebase: the lifetime comes from Expires, the Date field is ahead of Squid's clock
+    // (served_date = t0) and Expires <= Date - t0 - 1 (e.g. "Expires: Thu, 01 Jan 1970 00:00:01 GMT" from an origin whose clock is
+    // 2 s ahead; for an unparsable Expires, taken as t0: Date >= 2*t0 + 1): the rebased entry->expires = t0 + Expires - Date is
+    // <= -1, which refreshStaleness() reads as "no explicit expiry", and with a Last-Modified field the reply is
+    // FRESH_LMFACTOR_RULE although it had expired before it was sent (e.g. received=10^9 date=10^9+2 expires=1
+    // last_modified=900000000 now=10^9+3600). Without Last-Modified the verdict is STALE_DEFAULT, so the class includes Last-Modified.
+    // Examined by c12_known_expires_rebase only; every other entry excludes exactly this class.
+    const bool rebasedBeforeEpoch = withLastModified && byExpires && h.hasDate && h.D > t0 && t0 + (h.expiresValid ? h.X : t0) - h.D <= -1;
+    vf_assume(rebasedBeforeEpoch == onlyRebasedBeforeEpoch);
 
     w.entry->timestamp = -1; w.entry->expires = -1; w.entry->lastModified_ = -1; // as new StoreEntry
     w.entry->timestampsSet();
@@ -296,5 +314,8 @@ static void chain(const bool withLastModified)
     if (reason < 200) vf_reach("fresh");
     WITNESS_POINT();
 }
-extern "C" void c12_chain(void) { chain(false); }
-extern "C" void c12_chain_lm(void) { chain(true); }
+extern "C" void c12_chain(void) { chain(false, false); }
+// with Last-Modified: the cases in which a lost explicit expiry would silently turn into LM-factor heuristic freshness
+extern "C" void c12_chain_lm(void) { chain(true, true); }
+extern "C" void c12_known_unparsable_expires(void) { onlyBadExpiresOldDate = true; chain(false, true); }
+extern "C" void c12_known_expires_rebase(void) { onlyRebasedBeforeEpoch = true; chain(true, true); }
